@@ -94,3 +94,14 @@ Proof.
   intros Hops Hh. destruct (last_fetch_sound lim now _ k Hops) as [H|H]; [exact H|]. rewrite H. apply m_fetch_none.
   apply (m_run_stays_none hist now m_init k Hh). reflexivity.
 Qed.
+
+(* F. rise t removes EVERY entry that carries t (every page that depended on it) and nothing else *)
+Theorem rise_kills_exactly_l t s : Inv s -> forall k,
+  pfind k (primary (rise t s)) =
+  match pfind k (primary s) with Some c => if kmem t (c_trigs c) then None else Some c | None => None end.
+Proof.
+  intros I k. destruct (rise_ref t s I) as [_ E].
+  change (primary (rise t s)) with (a_ent (abs (rise t s))). rewrite E. unfold a_rise; cbn [a_ent abs].
+  rewrite pfind_filter by exact (inv_keys s I). destruct (pfind k (primary s)) as [c|]; [|reflexivity].
+  unfold has_trig; cbn [snd]. destruct (kmem t (c_trigs c)); reflexivity.
+Qed.
